@@ -140,4 +140,32 @@ theorem specLines_indent (o : Opts) (groups : List (List Word)) (idx n : Nat) :
       · exact ih _ _ k d (by simpa using h)
       · exact ih _ _ k d (by simpa using h)
 
+/-- every descriptor comes from a group: its slice, penalty and indent -/
+theorem specLines_mem (o : Opts) (G : List (List Word)) (idx n : Nat) :
+    ∀ d ∈ specLines o G idx n, ∃ g ∈ G, d.slice = groupSlice g ∧
+      (d.pen = [] ∨ ∃ last ∈ g, d.pen = last.pen) ∧
+      (d.indent = o.initialIndent ∨ d.indent = o.subsequentIndent) := by
+  induction G generalizing idx n with
+  | nil => intro d hd; simp [specLines] at hd
+  | cons g r ih =>
+    intro d hd
+    simp only [specLines] at hd
+    have hind : ∀ (x : Text), x = (if n = 0 then o.initialIndent else o.subsequentIndent) →
+        x = o.initialIndent ∨ x = o.subsequentIndent := by
+      intro x hx; by_cases h0 : n = 0 <;> simp [hx, h0]
+    cases hl : g.getLast? with
+    | none =>
+      rw [hl] at hd
+      rcases List.mem_cons.mp hd with rfl | hd
+      · exact ⟨g, by simp, by simp [groupSlice, hl], Or.inl rfl, hind _ rfl⟩
+      · obtain ⟨g0, hg0, h⟩ := ih _ _ d hd
+        exact ⟨g0, by simp [hg0], h⟩
+    | some last =>
+      rw [hl] at hd
+      rcases List.mem_cons.mp hd with rfl | hd
+      · exact ⟨g, by simp, rfl, Or.inr ⟨last, List.mem_of_getLast? hl, rfl⟩, hind _ rfl⟩
+      · obtain ⟨g0, hg0, h⟩ := ih _ _ d hd
+        exact ⟨g0, by simp [hg0], h⟩
+
+
 end TW
